@@ -1370,6 +1370,10 @@ class Engine:
                 return self.getattr(r, attr, s)
             # not provably an instance of a class that has the attribute
             return self.implicit(s, "AttributeError", True, lambda s2: [])
+        if k == "type" and self.reg.specfuns.get("typeattr_" + attr):
+            hv = self.reg.specfuns["typeattr_" + attr](self, o, s)
+            if hv is not None:
+                return [(s, hv)]
         if k == "type" and attr == "__name__":
             # the name of a class object: an uninterpreted function of the class id (only ever used in messages)
             return [(s, SV(STR, self.reg.ufun("type_name", z3.IntSort(), z3.StringSort())(o.t)))]
